@@ -70,22 +70,32 @@ Proof.
     simpl in H. exact (not_elem_of_empty _ H).
 Qed.
 
-(* the GC callback: whatever the deletion order, exactly the dead alerts' own entries disappear *)
-Lemma gc_ix_elem (c : rule) (dead : list alert) (ix : gmap (list string) (gset (list (string * string))))
-    (f : list (string * string)) (k : list string) :
-  f ∈ ix_get (foldr (fun a ix => ix_del (eqkey c (a_lbls a)) (a_lbls a) ix) ix dead) k <->
-  f ∈ ix_get ix k /\ ~ (exists a, a ∈ dead /\ eqkey c (a_lbls a) = k /\ a_lbls a = f).
+(* the GC callback: whatever the deletion order, exactly the entries of the dead alerts that are not in the cache
+   (again) disappear *)
+Lemma gc_ix_elem (c : rule) (sc : gmap (list (string * string)) alert) (dead : list alert)
+    (ix : gmap (list string) (gset (list (string * string)))) (f : list (string * string)) (k : list string) :
+  f ∈ ix_get (foldr (fun a ix => match sc !! a_lbls a with
+                                 | Some _ => ix
+                                 | None => ix_del (eqkey c (a_lbls a)) (a_lbls a) ix
+                                 end) ix dead) k <->
+  f ∈ ix_get ix k /\ ~ (exists a, a ∈ dead /\ sc !! a_lbls a = None /\ eqkey c (a_lbls a) = k /\ a_lbls a = f).
 Proof.
   induction dead as [|d dead IH]; simpl.
   - split; [|tauto]. intros H. split; [exact H|]. intros (a & Ha & _). inversion Ha.
-  - rewrite elem_ix_del, IH. split.
-    + intros [[Hin Hn] Hd]. split; [exact Hin|]. intros (a & Ha & Hk & Hf).
-      apply elem_of_cons in Ha as [->|Ha].
-      * apply Hd. auto.
-      * apply Hn. exists a. auto.
-    + intros [Hin Hn]. split; [split; [exact Hin|]|].
-      * intros (a & Ha & Hk & Hf). apply Hn. exists a. rewrite elem_of_cons. auto.
-      * intros [Hk Hf]. apply Hn. exists d. rewrite elem_of_cons. auto.
+  - destruct (sc !! a_lbls d) as [x|] eqn:Hd.
+    + rewrite IH. split.
+      * intros [Hin Hn]. split; [exact Hin|]. intros (a & Ha & Hs & Hk & Hf).
+        apply elem_of_cons in Ha as [->|Ha]; [rewrite Hd in Hs; discriminate|]. apply Hn. exists a. auto.
+      * intros [Hin Hn]. split; [exact Hin|]. intros (a & Ha & Hs & Hk & Hf). apply Hn. exists a.
+        rewrite elem_of_cons. auto.
+    + rewrite elem_ix_del, IH. split.
+      * intros [[Hin Hn] Hd']. split; [exact Hin|]. intros (a & Ha & Hs & Hk & Hf).
+        apply elem_of_cons in Ha as [->|Ha].
+        { apply Hd'. auto. }
+        { apply Hn. exists a. auto. }
+      * intros [Hin Hn]. split; [split; [exact Hin|]|].
+        { intros (a & Ha & Hs & Hk & Hf). apply Hn. exists a. rewrite elem_of_cons. auto. }
+        { intros [Hk Hf]. apply Hn. exists d. rewrite elem_of_cons. auto. }
 Qed.
 
 Lemma gc_dead_elem (now : Z) (sc : gmap (list (string * string)) alert) (a : alert) :
@@ -112,7 +122,7 @@ Lemma latest_lbls h : forall f a, latest h f = Some a -> a_lbls a = f.
 Proof.
   induction h as [|x h IH] using rev_ind; intros f a.
   - discriminate.
-  - rewrite latest_snoc. unfold upd_latest. destruct (snd x) as [b|sel| |snap pend]; try apply IH.
+  - rewrite latest_snoc. unfold upd_latest. destruct (snd x) as [b|sel| |snap pend|sel|sel dead]; try apply IH.
     + unfold upd1. case_bool_decide as Hb; [|apply IH]. intros [= ->]. exact Hb.
     + apply upd1_fold_lbls. intros a0. apply IH.
 Qed.
@@ -152,11 +162,13 @@ Lemma latest_in_fps h : forall f a, latest h f = Some a -> In f (hist_fps h).
 Proof.
   induction h as [|x h IH] using rev_ind; intros f a; [discriminate|].
   rewrite latest_snoc. unfold hist_fps. rewrite flat_map_app, in_app_iff. simpl. rewrite app_nil_r.
-  unfold upd_latest, op_fps. destruct (snd x) as [b|sel| |snap pend].
+  unfold upd_latest, op_fps. destruct (snd x) as [b|sel| |snap pend|sel|sel dead].
   - unfold upd1. case_bool_decide as Hb; [intros _; right; left; exact Hb|]. intros H. left. exact (IH f a H).
   - intros H. left. exact (IH f a H).
   - intros H. left. exact (IH f a H).
   - intros H. apply upd1_fold_cases in H as [H|H]; [left; exact (IH f a H)|right; exact H].
+  - intros H. left. exact (IH f a H).
+  - intros H. left. exact (IH f a H).
 Qed.
 
 Lemma snap_okb_sound pre t snap : snap_okb pre t snap = true -> snap_ok pre t snap.
@@ -189,7 +201,7 @@ Lemma latest_map_gen h f : forall (m : gmap (list (string * string)) alert),
                     end) m h !! f = foldl (upd_latest f) (m !! f) h.
 Proof.
   induction h as [|x h IH]; intros m; simpl; [reflexivity|]. rewrite IH. f_equal. unfold upd_latest.
-  destruct (snd x) as [a|sel| |snap pend]; try reflexivity.
+  destruct (snd x) as [a|sel| |snap pend|sel|sel dead]; try reflexivity.
   - unfold upd1. case_bool_decide as Hp; [subst f; apply lookup_insert|apply lookup_insert_ne; exact Hp].
   - apply latest_map_pend.
 Qed.
@@ -210,6 +222,8 @@ Section Proofs.
     | OGC sel => if sel (ir_cfg r) then gc_rule (fst x) r else r
     | OTick => r
     | ORestart snap pend => restart_rule re snap pend r
+    | OGCDelete sel => if sel (ir_cfg r) then fst (gc_delete_rule (fst x) r) else r
+    | OGCCallback sel dead => if sel (ir_cfg r) then gc_callback_rule dead r else r
     end.
   Definition run_rule (c : rule) (h : list (Z * op)) : irule := foldl step_rule (new_rule c) h.
 
@@ -345,12 +359,44 @@ Section Proofs.
     - exact Hix.
   Qed.
 
+  (* the two steps of the GC, on the state alone (they publish nothing: the history stays) *)
+  Lemma inv_gc_delete c h t r now :
+    inv c h t r -> t <= now -> inv c h now (fst (gc_delete_rule now r)).
+  Proof.
+    intros [Hcfg Hsc Hlat Hix] Hle. split; simpl.
+    - exact Hcfg.
+    - intros f a0 H. apply map_filter_lookup_Some in H as [H Hr]. exact (Hsc f a0 H).
+    - intros f a0 H1 H2. destruct (Hlat f a0 H1 H2) as [H|H].
+      + destruct (resolved_at a0 now) eqn:Hr; [right; reflexivity|left].
+        apply map_filter_lookup_Some. split; [exact H|exact Hr].
+      + right. exact (resolved_mono _ _ _ Hle H).
+    - exact Hix.
+  Qed.
+
+  (* ... for ANY list of "deleted" alerts: the callback never touches the entry of a cached fingerprint *)
+  Lemma inv_gc_callback c h t r dead : inv c h t r -> inv c h t (gc_callback_rule dead r).
+  Proof.
+    intros [Hcfg Hsc Hlat Hix]. split; simpl.
+    - exact Hcfg.
+    - intros f a0 H. destruct (Hsc f a0 H) as (H1 & H2 & H3 & H4). repeat split; auto.
+      rewrite Hcfg. apply gc_ix_elem. split; [exact H4|]. intros (d & _ & Hd & _ & Hdf).
+      rewrite Hdf, H in Hd. discriminate.
+    - exact Hlat.
+    - intros k f H. rewrite Hcfg in H. apply gc_ix_elem in H as [H _]. exact (Hix k f H).
+  Qed.
+
   Lemma inv_step0 c h t r now o :
     match o with ORestart _ _ => False | _ => True end ->
     inv c h t r -> t <= now -> inv c (h ++ [(now, o)]) now (step_rule r (now, o)).
   Proof.
     intros Hno Hinv Hle. pose proof Hinv as [Hcfg Hsc Hlat Hix]. unfold step_rule. simpl.
-    destruct o as [a|sel| |snap pend]; [| | |destruct Hno].
+    assert (Hidle : forall o', (forall f, latest (h ++ [(now, o')]) f = latest h f) ->
+                               forall r', inv c h now r' -> inv c (h ++ [(now, o')]) now r').
+    { intros o' Hl r' H'. apply (inv_ext c h); [intros f; symmetry; apply Hl|exact H']. }
+    assert (Hnow : inv c h now r).
+    { split; [exact Hcfg|exact Hsc| |exact Hix]. intros f a0 H1 H2.
+      destruct (Hlat f a0 H1 H2) as [H|H]; [left; exact H|right; exact (resolved_mono _ _ _ Hle H)]. }
+    destruct o as [a|sel| |snap pend|sel|sel dead]; [| | |destruct Hno| |].
     - (* OProcess *)
       unfold process_rule. rewrite Hcfg.
       destruct (ms_matches re (r_src c) (a_lbls a)) eqn:Hm.
@@ -377,25 +423,18 @@ Section Proofs.
           { intros _ H2. rewrite <- Hf in H2. rewrite H2 in Hm. discriminate. }
           { intros H1 H2. destruct (Hlat f a0 H1 H2) as [H|H]; [left; exact H|right; exact (resolved_mono _ _ _ Hle H)]. }
         * exact Hix.
-    - (* OGC *)
-      assert (Hl : forall f, latest (h ++ [(now, OGC sel)]) f = latest h f).
-      { intros f. rewrite latest_snoc. reflexivity. }
-      destruct (sel (ir_cfg r)); [|exact (inv_idle _ _ _ _ _ _ Hl Hinv Hle)].
-      split; simpl.
-      + exact Hcfg.
-      + intros f a0 H. apply map_filter_lookup_Some in H as [H Hr]. simpl in Hr.
-        destruct (Hsc f a0 H) as (H1 & H2 & H3 & H4). rewrite Hl, Hcfg. repeat split; auto.
-        apply gc_ix_elem. split; [exact H4|]. intros (d & Hd & _ & Hdf).
-        apply gc_dead_elem in Hd as [Hdr (f' & Hf')].
-        destruct (Hsc f' d Hf') as (Hd1 & _). rewrite Hdf in Hd1. subst f'.
-        rewrite H in Hf'. injection Hf' as ->. rewrite Hr in Hdr. discriminate.
-      + intros f a0. rewrite Hl. intros H1 H2. destruct (Hlat f a0 H1 H2) as [H|H].
-        * destruct (resolved_at a0 now) eqn:Hr; [right; reflexivity|left].
-          apply map_filter_lookup_Some. split; [exact H|exact Hr].
-        * right. exact (resolved_mono _ _ _ Hle H).
-      + intros k f H. rewrite Hcfg in H. apply gc_ix_elem in H as [H _]. exact (Hix k f H).
+    - (* OGC: both steps *)
+      apply Hidle; [intros f; rewrite latest_snoc; reflexivity|].
+      destruct (sel (ir_cfg r)); [|exact Hnow].
+      apply inv_gc_callback. exact (inv_gc_delete c h t r now Hinv Hle).
     - (* OTick *)
-      apply (inv_idle c h t r now OTick); [|exact Hinv|exact Hle]. intros f. rewrite latest_snoc. reflexivity.
+      apply Hidle; [intros f; rewrite latest_snoc; reflexivity|exact Hnow].
+    - (* OGCDelete *)
+      apply Hidle; [intros f; rewrite latest_snoc; reflexivity|].
+      destruct (sel (ir_cfg r)); [|exact Hnow]. exact (inv_gc_delete c h t r now Hinv Hle).
+    - (* OGCCallback, any list *)
+      apply Hidle; [intros f; rewrite latest_snoc; reflexivity|].
+      destruct (sel (ir_cfg r)); [|exact Hnow]. apply inv_gc_callback. exact Hnow.
   Qed.
 
   Lemma inv_pending c t pend : forall h r,
@@ -412,9 +451,10 @@ Section Proofs.
     op_ok h (now, o) -> inv c h t r -> t <= now -> inv c (h ++ [(now, o)]) now (step_rule r (now, o)).
   Proof.
     intros Hok Hinv Hle.
-    destruct o as [a|sel| |snap pend];
+    destruct o as [a|sel| |snap pend|sel|sel dead];
       [exact (inv_step0 c h t r now (OProcess a) I Hinv Hle)|exact (inv_step0 c h t r now (OGC sel) I Hinv Hle)|
-       exact (inv_step0 c h t r now OTick I Hinv Hle)|].
+       exact (inv_step0 c h t r now OTick I Hinv Hle)| |exact (inv_step0 c h t r now (OGCDelete sel) I Hinv Hle)|
+       exact (inv_step0 c h t r now (OGCCallback sel dead) I Hinv Hle)].
     unfold op_ok in Hok. simpl in Hok. unfold step_rule, restart_rule. simpl.
     rewrite (inv_cfg _ _ _ _ Hinv), foldl_app.
     apply (inv_ext c (h ++ map (fun a => (now, OProcess a)) pend)).
@@ -429,6 +469,26 @@ Section Proofs.
     - apply mono_from_snoc in Hm as [Hm Hle]. apply hist_ok_snoc in Hok as [Hok Hop]. simpl in Hop.
       rewrite last_time_snoc. unfold run_rule. rewrite foldl_app. simpl.
       apply (inv_step c h (last_time t0 h)); [exact Hop|exact (IH t0 Hm Hok)|exact Hle].
+  Qed.
+
+  (* the GC window: after the delete step, ANY sequence of source updates, then the callback on ANY list - every
+     cached source is (still) the latest update of its fingerprint and indexed under its own equal-values *)
+  Lemma gc_window_inv c h t0 now dead updates :
+    mono_from t0 h -> hist_ok [] h -> last_time t0 h <= now ->
+    inv c (h ++ map (fun a => (now, OProcess a)) updates) now
+        (gc_callback_rule dead (foldl (fun r a => process_rule re a r) (fst (gc_delete_rule now (run_rule c h))) updates)).
+  Proof.
+    intros Hm Hok Hle. apply inv_gc_callback. apply inv_pending.
+    exact (inv_gc_delete c h _ _ now (inv_run c h t0 Hm Hok) Hle).
+  Qed.
+
+  Lemma gc_window_indexed c h t0 now dead updates f a :
+    mono_from t0 h -> hist_ok [] h -> last_time t0 h <= now ->
+    let r3 := gc_callback_rule dead (foldl (fun r a => process_rule re a r) (fst (gc_delete_rule now (run_rule c h))) updates) in
+    ir_sc r3 !! f = Some a -> a_lbls a = f /\ f ∈ ix_get (ir_ix r3) (eqkey c f).
+  Proof.
+    intros Hm Hok Hle r3 H. destruct (inv_sc _ _ _ _ (gc_window_inv c h t0 now dead updates Hm Hok Hle) f a H) as (H1 & _ & _ & H4).
+    split; assumption.
   Qed.
 
   (* ---------- one rule: the usable indexed sources are exactly the firing witnesses ---------- *)
@@ -561,16 +621,7 @@ Section Proofs.
   Qed.
 End Proofs.
 
-(* ---------- the GC as the code runs it: two steps that are NOT atomic together ----------
-   store.Alerts.GC deletes the resolved alerts under the store lock (gc_delete_rule) and runs the callback on the
-   deleted ones afterwards, without the lock (gc_callback_rule). Model/Inhibit.v's OGC is both at once; the
-   subscription loop can process an update in between (known finding refired-source-unindexed-after-gc, found on
-   the implementation by harness/c03/gcrace_test.go; witness in Properties/C03.v: c03_gc_callback_window_refuted). *)
-Definition gc_delete_rule (now : Z) (r : irule) : irule * list alert :=
-  (mkIR (ir_cfg r) (filter (fun kv => resolved_at (snd kv) now = false) (ir_sc r)) (ir_ix r), gc_dead now (ir_sc r)).
-Definition gc_callback_rule (dead : list alert) (r : irule) : irule :=
-  mkIR (ir_cfg r) (ir_sc r)
-       (foldr (fun a ix => ix_del (eqkey (ir_cfg r) (a_lbls a)) (a_lbls a) ix) (ir_ix r) dead).
+(* both GC steps with nothing in between are the model's OGC (by definition) *)
 Lemma gc_rule_split now r : gc_callback_rule (snd (gc_delete_rule now r)) (fst (gc_delete_rule now r)) = gc_rule now r.
 Proof. reflexivity. Qed.
 
@@ -609,6 +660,7 @@ Section OldIndex.
     | OGC sel => map (fun r => if sel (or_cfg r) then old_gc (fst x) r else r) ih
     | OTick => ih
     | ORestart snap pend => map (fun r => foldl (fun r a => old_process a r) (mkOR (or_cfg r) ∅ ∅) (snap ++ pend)) ih
+    | OGCDelete _ | OGCCallback _ _ => ih
     end.
   (* the old hasEqual / findEqualSourceAlert *)
   Definition old_has_equal (r : orule) (lset : list (string * string)) (now : Z) : bool :=
